@@ -79,3 +79,18 @@ func (c *Ctx) mapLiteralStrings(rel, name string) map[string]string {
 	}
 	return out
 }
+
+
+// constObjEquals: package-level constant name has the integer value w.
+func constObjEquals(p *packages.Package, name string, w int64) bool {
+	o := p.Types.Scope().Lookup(name)
+	if o == nil {
+		return false
+	}
+	cst, ok := o.(interface{ Val() constant.Value })
+	if !ok {
+		return false
+	}
+	v, ok := constant.Int64Val(cst.Val())
+	return ok && v == w
+}
